@@ -1,6 +1,6 @@
 """C01 - SELECT/WHERE yields exactly the projected matching records, in input order.
 
-Space: select lists of <= 2 (quick) / <= 3 (thorough) items over a 14-kind vocabulary x 5 WHERE forms, over the
+Space: select lists of <= 2 (quick) / <= 3 (thorough) items over a 14-kind vocabulary x 6 WHERE forms, over the
 prefix-closed tree of all tables of <= 2 / <= 3 rows from a ragged row alphabet, plus one de Bruijn table per
 query (every window of 2 / 3 consecutive rows, i.e. non-initial engine states); EXCEPT forms; a JOIN slice
 (INNER/LEFT x four B tables). Oracle: RefQL outcome (records or error class + record number), fresh output rows,
@@ -15,10 +15,10 @@ PID = 'C01'
 def vocab(seed):
     k, m = alphabet.words(seed, 2)
     F = lambda t, i: ('f', t, i)
-    items = [F('a', 1), F('a', 2), F('a', 3), ('NR',), ('NF',), ('lit', 'x,y'), ('cat', F('a', 1), ('lit', 'x')),
+    items = [F('a', 1), F('a', 2), F('a', 3), ('NR',), ('NF',), ('lit', "x,y$&$$$`"), ('cat', F('a', 1), ('lit', 'x')),
              ('arith', '+', ('arith', '*', ('NR',), ('int', 2)), ('NF',)), ('star', None), ('star', 'a'), ('list', F('a', 1), F('a', 2)),
              ('unnest', ('split', F('a', 2), ';')), ('unnest', ('list', F('a', 1), F('a', 2))), ('unnest', ('list',))]
-    wheres = [None, ('cmp', '==', F('a', 1), ('lit', k)), ('cmp', '>', ('NR',), ('int', 1)), ('cmp', '==', ('NF',), ('int', 2)), ('like', F('a', 1), k[0] + '%')]
+    wheres = [None, ('cmp', '==', F('a', 1), ('lit', k)), ('cmp', '>', ('NR',), ('int', 1)), ('cmp', '==', ('NF',), ('int', 2)), ('like', F('a', 1), k[0] + '%'), ('cmp', '!=', F('a', 1), ('lit', "$'$&"))]
     rows = [[], [k], [None], [k, m], [m, k + ';' + m], [k, None], [m, k, k + ';' + m], [None, k + ';' + m, m]]
     jitems = [F('a', 1), F('b', 1), F('b', 2), ('NR',), ('bNR',), ('star', None), ('star', 'a'), ('star', 'b'), ('lit', 'x'),
               ('unnest', ('list', F('a', 1), F('b', 2))), ('unnest', ('split', F('a', 2), ';'))]
